@@ -42,22 +42,23 @@ Proof. intros c T nS s x t Hc Hl Hs. eapply chain_total; eauto.
   apply (loop_walk gen_failed_one gen_failed_one_spec c T s x t Hs). Qed.
 Print Assumptions C10_path.
 
+
+(* non-vacuity: the SIR model (S->I, I->R) over Z is closed with 3 states *)
+From Coq Require Import ZArith.
+Example sir_closed :
+  AssemblyProofs.closed Z 3 [ {| rate := 5%Z; trans := [ {| ty := T; orig := 0; dest := 1; mag := 1%Z |} ] |};
+               {| rate := 7%Z; trans := [ {| ty := T; orig := 1; dest := 2; mag := 2%Z |} ] |} ].
+Proof. intros e tr He Htr. simpl in He. destruct He as [<-|[<-|[]]]; simpl in Htr; destruct Htr as [<-|[]]; simpl; repeat split; auto with arith. Qed.
+
 (* deterministic half: every differentiable solution of the assembled ODE of a transition-only model (rates may
    depend on the state in any way) keeps the sum of the states constant for all times *)
 From Coq Require Import Reals.
 From Coquelicot Require Import Coquelicot.
 From PV Require Import Flow.
 Theorem C10_flow : forall n (m : (nat -> R) -> model R) (x : nat -> R -> R),
-  (forall y, closed R n (events (m y)) /\ odes (m y) = []) ->
+  (forall y, AssemblyProofs.closed R n (events (m y)) /\ odes (m y) = []) ->
   (forall i t, (i < n)%nat ->
      is_derive (x i) t (ode_vec R 0%R 1%R Rplus Rmult Rminus Ropp (m (fun j => x j t)) i)) ->
   forall t0 t, lsum (map (fun i => x i t) (seq 0 n)) = lsum (map (fun i => x i t0) (seq 0 n)).
 Proof. exact closed_model_total_constant. Qed.
 Print Assumptions C10_flow.
-
-(* non-vacuity: the SIR model (S->I, I->R) over Z is closed with 3 states *)
-From Coq Require Import ZArith.
-Example sir_closed :
-  closed Z 3 [ {| rate := 5%Z; trans := [ {| ty := T; orig := 0; dest := 1; mag := 1%Z |} ] |};
-               {| rate := 7%Z; trans := [ {| ty := T; orig := 1; dest := 2; mag := 2%Z |} ] |} ].
-Proof. intros e tr He Htr. simpl in He. destruct He as [<-|[<-|[]]]; simpl in Htr; destruct Htr as [<-|[]]; simpl; repeat split; auto with arith. Qed.
